@@ -3702,6 +3702,9 @@ void UniCompiler::emit_2v(UniOpVV op, const Operand_& dst_, const Operand_& src_
         Operand msk = simd_const(msk_data, Bcst(op_info.broadcast_size), dst);
 
         if (src.is_mem() && is_scalar_fp_op(fm)) {
+          dst = dst.xmm();
+          if (msk.is_vec())
+            msk.as<Vec>().set_signature(signature_of_xmm_ymm_zmm[0]);
           avx_fmov(*this, dst, src, fm);
           cc->emit(inst_id, dst, dst, msk);
         }
